@@ -442,3 +442,98 @@ class AliasExport(FunctionContract):
 
 
 ALIAS_EXPORT = [AliasExport()]
+
+
+# ---------------------------------------------------------------------------------------------------------------
+# C18: AliasMixin.__init__ - chains of aliases resolve to the underlying variable; constructor keywords go through aliases
+# ---------------------------------------------------------------------------------------------------------------
+def _alias_maps():
+    """Every alias map with at most three aliases a1..a3, each pointing to another alias, to itself, or to a variable."""
+    import itertools
+    keys = ['a1', 'a2', 'a3']
+    vals = ['a1', 'a2', 'a3', 'Y', 'C']
+    out = [{}]
+    for r in (1, 2, 3):
+        for vs in itertools.product(vals, repeat=r):
+            out.append(dict(zip(keys[:r], vs)))
+    return out
+
+
+def _resolve_spec(amap):
+    """Statement's reading: self-maps are no aliases; following the chain from an alias ends at the underlying name; a chain that never
+    ends (a cycle of length >= 2) cannot be resolved."""
+    clean = {k: v for k, v in amap.items() if k != v}
+    res = {}
+    for a in clean:
+        seen, x = {a}, clean[a]
+        while x in clean:
+            if x in seen:
+                return None
+            seen.add(x)
+            x = clean[x]
+        if x != a:
+            res[a] = x
+    return res
+
+
+class AliasInit(FunctionContract):
+    qualname = 'fsic.extensions.common.AliasMixin.__init__'
+    props = ('C18',)
+    required_covers = ('resolved', 'cycle')
+    MAPS = _alias_maps()
+
+    def scenarios(self):
+        return [f'map{i}' for i in range(len(self.MAPS))]
+
+    def setup(self, interp, scenario):
+        amap = self.MAPS[int(scenario[3:])]
+        e = {'amap': amap, 'parent': []}
+
+        class Al(AliasMixin, _Base):
+            ALIASES = dict(amap)
+            PREFERRED_NAMES = []
+        e['cls'] = Al
+        obj = SObj(Al, {}, label='instance')
+        e['obj'] = obj
+
+        def parent_init(interp_, o, args, kwargs, node):
+            e['parent'].append((list(args), dict(kwargs)))
+            return None
+        interp.registry.set_calls({'fsic.core.models.BaseModel.__init__': parent_init})
+        e['span'] = [1, 2, 3]
+        # constructor keywords: one through each alias, one through a variable name
+        e['kw'] = {k: object() for k in list(amap)[:2] + ['C']}
+        e['inputs'] = {}
+        return Call([e['span']], dict(e['kw']), self_obj=obj, entry=e)
+
+    def post(self, interp, scenario, call, out):
+        ctx = interp.ctx
+        e = call.entry
+        want = _resolve_spec(e['amap'])
+        if out.kind == 'raise':
+            ctx.cover('cycle')
+            ctx.prove(z3.BoolVal(want is None and exc_class(out.exc) is ValueError), 'ValueError_only_for_a_cycle_of_aliases', 'raises', note=str(e['amap']))
+            ctx.prove(z3.BoolVal(not e['parent']), 'nothing_is_constructed_for_an_unresolvable_map', 'raises')
+            return
+        ctx.cover('resolved')
+        ctx.prove(z3.BoolVal(want is not None), 'a_cycle_of_aliases_is_rejected', 'raises', note=str(e['amap']))
+        if want is None:
+            return
+        al = e['obj'].fields.get('aliases')
+        ctx.prove(z3.BoolVal(al == want), 'every_alias_resolves_to_the_variable_at_the_end_of_its_chain_(self_maps_dropped)', 'ensures', note=f'{e["amap"]} -> {al}, expected {want}')
+        ctx.prove(z3.BoolVal(dict(e['cls'].ALIASES) == e['amap'] and al is not e['cls'].ALIASES), 'class_level_table_untouched_and_not_shared', 'frame')
+        ok = len(e['parent']) == 1
+        ctx.prove(z3.BoolVal(ok), 'parent_constructor_called_exactly_once', 'ensures')
+        if ok:
+            args, kw = e['parent'][0]
+            exp = {}
+            collide = False
+            for k, v in e['kw'].items():
+                tgt = want.get(k, k)
+                collide = collide or tgt in exp
+                exp[tgt] = v
+            good = args == [e['span']] and (collide or (set(kw) == set(exp) and all(kw[k] is exp[k] for k in exp)))
+            ctx.prove(z3.BoolVal(good), 'constructor_keywords_given_through_aliases_reach_the_underlying_variables', 'ensures', note=str(sorted(kw)))
+
+
+ALIAS_EXPORT.append(AliasInit())
